@@ -1,4 +1,5 @@
 import KV.ImportsProofs
+import KV.TypeConvProofs
 import KV.WriteLast
 import KV.Generated.Orders
 /-! # C14 — migration output: import aliases, sets once, deterministic, no write on failure
@@ -115,4 +116,31 @@ example : runCalls migrateCalls none =
 example : runCalls migrateCalls (some 4) =
     (["packages.Load", "m.convertPackageError", "m.transformer.Transform", "m.mergeResults", "format.Node"], true) := by decide
 
+/-! ### the types `migrate` spells (`TypeConverter.TypeToExpr`, model in `KV/TypeConv.lean`, proofs in `KV/TypeConvProofs.lean`) -/
+
+/-- every type `migrate` spells from type information denotes, in the written file, the type it was spelled from;
+    the file's import table is injective and contains no import the spelled types do not use -/
+theorem C14_types_roundtrip (c : Nat) (pname : Nat → String) (ts : List TConv.Ty) (tc' : Imp.TC) (es : List TConv.Ex)
+    (hwf : TConv.WFList ts = true) (h : TConv.renderList (some c) pname Imp.TC.empty ts = some (tc', es)) :
+    TConv.resolveList (some c) tc' es = some ts ∧ Imp.Inv tc' ∧
+    (∀ p n, tc'.imports.lookup p = some n → n ∈ TConv.qualsList es) := by
+  refine ⟨TConv.renderList_roundtrip ts _ tc' es inv_empty hwf h, TConv.renderList_inv ts _ tc' es inv_empty h, ?_⟩
+  intro p n hl
+  rcases TConv.renderList_no_unused ts _ tc' es h p n hl with h0 | hm
+  · simp [TC.empty] at h0
+  · exact hm
+
+/-- spelling a type always produces a result (the alias search inside never runs out of fuel) -/
+theorem C14_types_total (cur : Option Nat) (pname : Nat → String) (ts : List TConv.Ty) :
+    TConv.renderList cur pname Imp.TC.empty ts ≠ none :=
+  TConv.renderList_total cur pname _ ts
+
+/-- two packages that both declare the name `store`, nested under `map` / `func` / a type argument: the second one is
+    spelled `store_1`, and the result denotes the type it was made from -/
+example : (TConv.render (some 0) (fun _ => "store") TC.empty TConv.exTy).map (fun r => (r.1.imports, TConv.exStr r.2)) =
+    some ([(2, "store_1"), (1, "store")], "map[store.N0]func(store_1.N1[store.N0];int)") := by rfl
+
 end C14
+
+#print axioms C14.C14_types_roundtrip
+#print axioms C14.C14_types_total
